@@ -523,23 +523,50 @@ def _c12_jobs(tier):
     jobs = []
     for topo in (0, 1, 2, 3, 4, 5):
         for pool in (0, 2):
-            jobs.append(("c12_request", ["--topo", topo, "--pool", pool, "--nreq", 2, "--depth", 6 if q else (8 if pool == 0 and topo in (0, 3, 4) else 7), "--deadline", 75 if q else 840]))
+            # (topology 5 has the largest alphabet: its quick job is cut in two at the first operation)
+            for sh in ((["--shard", "0/2"], ["--shard", "1/2"]) if q and topo == 5 else ([],)):
+                jobs.append(("c12_request", ["--topo", topo, "--pool", pool, "--nreq", 2, "--depth", 6 if q else (8 if pool == 0 and topo in (0, 3, 4) else 7)] + sh + ["--deadline", 75 if q else 840]))
         jobs.append(("c12_request", ["--topo", topo, "--pool", 0, "--nreq", 3, "--depth", 5 if q else 6, "--deadline", 75 if q else 840]))
         # providers that answer inside register, and a requester whose uref_mgr callback withdraws and re-issues its uclock request
         for (tprov, cb) in ((1, 0), (1, 1), (0, 1), (2, 0)):
             jobs.append(("c12_request", ["--topo", topo, "--pool", 0, "--nreq", 3, "--tprov", tprov, "--cb", cb, "--depth", 5 if q else 6, "--deadline", 75 if q else 840]))
+    dl = 75 if q else 840
+    # flow-format and buffer-manager requests (they carry a flow definition) through the same chains: request set
+    # --reqs 0,3,4 = uref_mgr, flow_format, ubuf_mgr; providers holding / answering ubuf_mgr inside register / declining
+    for topo in (0, 1, 2, 3, 4, 5):
+        for tprov in ((0, 1, 2) if topo in (0, 3) else (0, 2)):
+            jobs.append(("c12_request", ["--topo", topo, "--pool", 0, "--reqs", "0,3,4", "--tprov", tprov, "--depth", 5 if q else 6, "--deadline", dl]))
+    # topology 6: P1 is a filter made of the output, flow-format and buffer-manager helpers, chained the documented way
+    # (control_ubuf_mgr before control_output): it answers flow_format / ubuf_mgr itself and forwards the rest; its own
+    # two requests travel through its output helper (operation P1.set_flow_def makes it negotiate)
+    for pool in (0, 2):
+        jobs.append(("c12_request", ["--topo", 6, "--pool", pool, "--reqs", "1,3,4", "--depth", 5 if q else 6, "--deadline", dl]))
+    for tprov in (1, 2):
+        jobs.append(("c12_request", ["--topo", 6, "--pool", 0, "--reqs", "1,3,4", "--tprov", tprov, "--depth", 5 if q else 6, "--deadline", dl]))
+    jobs.append(("c12_request", ["--topo", 6, "--pool", 0, "--nreq", 3, "--depth", 5 if q else 6, "--deadline", dl]))
+    jobs.append(("c12_request", ["--topo", 6, "--pool", 0, "--reqs", "0,1,3", "--tprov", 1, "--cb", 1, "--depth", 5 if q else 6, "--deadline", dl]))
+    nsh = 2 if q else 4
+    for sh in range(nsh):
+        jobs.append(("c12_request", ["--topo", 6, "--pool", 0, "--reqs", "3,4", "--depth", 6 if q else 7, "--shard", "%d/%d" % (sh, nsh), "--deadline", dl]))
+    # environment deviation: the out-of-band queue sink -> source (255 entries) is full (operation fill = burst of
+    # register / unregister of a throw-away request while the source is not dispatched; drain = dispatch until idle);
+    # plumbing fixed (P1 -> queue sink, P2 -> T0); the head registers on P1 (--head 0) or on the queue sink itself
+    for (head, pool) in ((0, 0), (1, 0), (0, 2)):
+        jobs.append(("c12_request", ["--topo", 3, "--pool", pool, "--nreq", 2, "--env", 1, "--head", head, "--depth", 6 if q else (8 if pool == 0 else 7), "--deadline", dl]))
+    jobs.append(("c12_request", ["--topo", 3, "--pool", 0, "--reqs", "3,4", "--env", 1, "--head", 1, "--depth", 6 if q else 7, "--deadline", dl]))
     return jobs
 
 CHECKS["C12"] = {
     "engine": "pipex", "design_ref": "DESIGN.md section 3 C12",
-    "technique": "explicit-state enumeration of all register/unregister/set_output/provide/release (and loop dispatch) sequences up to a depth over chains of two real pipes between a recording requester and two recording providers, in one thread and across a queue sink/source pair; routing and callback oracles after every step",
-    "level_text": "Chains head -> P1 -> P2 -> {T0,T1} with (P1,P2) in idem/idem, skip/setflowdef, dup/idem, idem -> queue sink | queue source -> idem (mock loop, every dispatch order) and ts_align (a bin pipe whose inner pipe every set_flow_def replaces: helper_bin_input / helper_bin_output) -> idem; requests uref_mgr, uclock (and sink_latency); every sequence up to the stated depth of register, unregister, P1.set_output(P2|NULL), P2.set_output(T0|T1|NULL), provide by a provider holding a request, pump dispatch, release of P2 / P1. After every step: the provider reachable through the outputs holds exactly one registration per request registered at the head and every other provider none (withdrawn on re-plumbing, re-issued to the new output, never twice); an answer given by a provider reaches the head callback exactly once with that value; the callback never fires while the request is not registered (including answers in flight in the queue); no provider is asked to unregister what it does not hold; at the end no proxy or message is left allocated. Bounded, not a proof.",
-    "level_note": "Chain length 2 (+ queue); longer chains repeat the same helper. Requests that no provider holds are answered by the real uprobe_uref_mgr / uprobe_uclock probes. Flow-format and ubuf-manager requests are not in the alphabet.",
+    "technique": "explicit-state enumeration of all register/unregister/set_output/provide/release (and loop dispatch) sequences up to a depth over chains of two real pipes between a recording requester and two recording providers, in one thread and across a queue sink/source pair (also with its out-of-band queue full); routing and callback oracles after every step",
+    "level_text": "Chains head -> P1 -> P2 -> {T0,T1} with (P1,P2) in idem/idem, skip/setflowdef, dup/idem, idem -> queue sink | queue source -> idem (mock loop, every dispatch order), ts_align (a bin pipe whose inner pipe every set_flow_def replaces: helper_bin_input / helper_bin_output) -> idem, auto_framer -> idem, and a filter written in the harness from the real output / flow-format / buffer-manager helper macros chained the documented way (control_ubuf_mgr before control_output, the layout of upipe_freetype) -> idem: that filter answers the flow_format and ubuf_mgr requests of its upstream itself, through its probes, exactly once and forwards nothing of them, while the two requests it issues itself on set_flow_def travel through its output helper; requests uref_mgr, uclock, sink_latency, flow_format, ubuf_mgr (sets of 2 or 3); every sequence up to the stated depth of register, unregister, P1.set_output(P2|NULL), P2.set_output(T0|T1|NULL), provide by a provider holding a request, pump dispatch, release of P2 / P1. After every step: the provider reachable through the outputs holds exactly one registration per request registered at the head and every other provider none (withdrawn on re-plumbing, re-issued to the new output, never twice); an answer given by a provider reaches the head callback exactly once with that value; the callback never fires while the request is not registered (including answers in flight in the queue); no provider is asked to unregister what it does not hold; at the end no proxy or message is left allocated. Environment deviation on the queue topology: one operation fills the out-of-band queue sink -> source (255 entries) with a burst of register / unregister of a throw-away request while the source is not dispatched, another dispatches until the loop is idle; a registration made while the queue is full must be refused with an error, and no answer may reach a requester that unregistered while it was full. Bounded, not a proof.",
+    "level_note": "Chain length 2 (+ queue); longer chains repeat the same helper. Requests that no provider holds are answered by the real uprobe_uref_mgr / uprobe_uclock / uprobe_ubuf_mem probes. The helper filter of topology 6 is harness code (the only module chaining the two helpers without intercepting flow-format requests first, upipe_freetype, needs the FreeType library); upipe_blit intercepts flow_format before the helper. Across the queue an answer given while a withdrawal of the same request is still travelling (or was lost) may rightly be dropped: the exact count is then only bounded from above. Known on the unchanged tree (known_findings.txt): an unregister made while the out-of-band queue is full is dropped, not deferred.",
     "jobs": {"quick": _c12_jobs("quick"), "thorough": _c12_jobs("thorough")},
     "rule": "state = one operation history (no merging); non-trivial = histories in which a provider held a registration or the head callback fired",
-    "bounds": {"quick": "6 topologies x pool depth {0,2}: all sequences of up to 6 operations with 2 request types; 3 request types up to depth 5, also with providers answering inside register, providers declining every request (the probes must then answer) and with a requester callback that withdraws and re-issues another request (mutating the request lists during re-plumbing)",
-               "thorough": "depth 7, depth 8 for topologies 0, 3, 4 at pool depth 0 (2 request types); depth 6 (3 request types)"},
-    "assumptions": DEFAULT_ASSUME + ["a requester unregisters its requests before releasing the pipe it registered them on (ownership rule)"],
+    "bounds": {"quick": "6 topologies x pool depth {0,2}: all sequences of up to 6 operations with 2 request types; 3 request types up to depth 5, also with providers answering inside register, providers declining every request (the probes must then answer) and with a requester callback that withdraws and re-issues another request (mutating the request lists during re-plumbing); request set uref_mgr + flow_format + ubuf_mgr up to depth 5 on the 6 topologies (providers holding / declining; answering inside register on topologies 0 and 3); helper filter -> idem: uclock + flow_format + ubuf_mgr up to depth 5 (pool depth {0,2}, the three provider behaviours, the re-issuing callback), flow_format + ubuf_mgr up to depth 6; full out-of-band queue: register / unregister / provide / dispatch / fill / drain up to depth 6 from the plumbed state, head on P1 or on the queue sink, request sets uref_mgr + uclock and flow_format + ubuf_mgr",
+               "thorough": "depth 7, depth 8 for topologies 0, 3, 4 at pool depth 0 (2 request types); depth 6 (3 request types, and every set with flow_format / ubuf_mgr); helper filter with 2 types depth 7; full queue depth 8 (7 at pool depth 2 and for flow_format + ubuf_mgr)"},
+    "assumptions": DEFAULT_ASSUME + ["a requester unregisters its requests before releasing the pipe it registered them on (ownership rule)",
+                                      "full-queue deviation: the queues have emptied before the pipeline is taken down (a queue source released while its out-of-band queue is full cannot be told and stays allocated: seen, outside this property)"],
     "job_timeout": {"quick": 300, "thorough": 1500},
 }
 
